@@ -23,6 +23,7 @@ import (
 	sdkmath "cosmossdk.io/math"
 	abci "github.com/cometbft/cometbft/abci/types"
 	sdk "github.com/cosmos/cosmos-sdk/types"
+	distrtypes "github.com/cosmos/cosmos-sdk/x/distribution/types"
 	govv1beta1 "github.com/cosmos/cosmos-sdk/x/gov/types/v1beta1"
 	"github.com/cosmos/cosmos-sdk/x/params"
 	paramstypes "github.com/cosmos/cosmos-sdk/x/params/types"
@@ -35,6 +36,10 @@ import (
 	"github.com/kava-labs/kava/x/committee"
 	ckeeper "github.com/kava-labs/kava/x/committee/keeper"
 	ctypes "github.com/kava-labs/kava/x/committee/types"
+	"github.com/kava-labs/kava/x/community"
+	communitytypes "github.com/kava-labs/kava/x/community/types"
+	hardtypes "github.com/kava-labs/kava/x/hard/types"
+	pricefeedtypes "github.com/kava-labs/kava/x/pricefeed/types"
 )
 
 func init() { Registry["C17"] = runC17 }
@@ -156,10 +161,70 @@ type c17Change struct {
 	V string `json:"v"` // proposed value text
 }
 
+type c17Coin struct {
+	D string `json:"d"`
+	A int64  `json:"a"`
+}
+
 type c17Content struct {
-	Kind    string      `json:"kind"` // text | param | cchange | upgrade
+	Kind    string      `json:"kind"` // text | param | cchange | upgrade | lenddeposit | lendwithdraw | cdprepay | cdpwithdraw | cancelupgrade | poolspend
 	Changes []c17Change `json:"changes,omitempty"`
-	H       int64       `json:"h,omitempty"` // upgrade: plan height
+	H       int64       `json:"h,omitempty"`     // upgrade: plan height
+	Coins   []c17Coin   `json:"coins,omitempty"` // community: the amount (lend) or the single coin (cdp)
+	CType   string      `json:"ctype,omitempty"` // community cdp proposals: collateral type
+	Meta    int         `json:"meta,omitempty"`  // 0 fine; 1 blank title; 2 empty description; 3 title too long
+	ok      bool        // community: does the keeper call behind the handler succeed on the state it is run on next (recorded when executed)
+}
+
+func (c c17Content) isCommunity() bool {
+	switch c.Kind {
+	case "lenddeposit", "lendwithdraw", "cdprepay", "cdpwithdraw":
+		return true
+	}
+	return false
+}
+
+var c17ContentKinds = []string{"text", "param", "upgrade", "cchange", "lenddeposit", "lendwithdraw", "cdprepay", "cdpwithdraw", "cancelupgrade", "poolspend"}
+var c17PermKinds = []string{"god", "text", "params", "other", "cdprepay", "cdpwithdraw", "lendwithdraw"}
+
+func contentTag(kind string) int {
+	for i, k := range c17ContentKinds {
+		if k == kind {
+			return i
+		}
+	}
+	return -1
+}
+
+// typeAllows is the permission matrix written down independently of the Allows methods:
+// which proposal type a permission of the declared type can allow at all.
+func typeAllows(perm, content string) bool {
+	switch perm {
+	case "god":
+		return true
+	case "text":
+		return content == "text"
+	case "params":
+		return content == "param"
+	case "other":
+		return content == "upgrade"
+	case "cdprepay":
+		return content == "cdprepay"
+	case "cdpwithdraw":
+		return content == "cdpwithdraw"
+	case "lendwithdraw":
+		return content == "lendwithdraw"
+	}
+	return false
+}
+
+func anyTypeAllows(perms []c17Perm, content string) bool {
+	for _, p := range perms {
+		if typeAllows(p.Kind, content) {
+			return true
+		}
+	}
+	return false
 }
 
 type c17Req struct {
@@ -175,7 +240,7 @@ type c17AC struct {
 }
 
 type c17Perm struct {
-	Kind string  `json:"kind"` // god | text | params | other
+	Kind string  `json:"kind"` // god | text | params | other (software upgrade) | cdprepay | cdpwithdraw | lendwithdraw
 	ACs  []c17AC `json:"acs,omitempty"`
 }
 
@@ -210,6 +275,9 @@ type c17Setup struct {
 	RefAssetSet  bool     `json:"ref_asset_set"`
 	EmptyAssets  bool     `json:"empty_assets"`
 	XrpbCoinZero bool     `json:"xrpb_coin_zero"`
+	PoolFunded   bool     `json:"pool_funded"`  // the community pool holds ukava and usdx
+	HardDeposit  bool     `json:"hard_deposit"` // the community module account has a hard deposit
+	Cdp          bool     `json:"cdp"`          // the community module account owns an xrp-a CDP
 }
 
 type c17Hist struct {
@@ -244,17 +312,22 @@ type c17World struct {
 	voteAt  map[[2]int]int64
 	cnt     *Counters
 	nextPid int
+	macc    sdk.AccAddress // x/community module account
+	enacted [4]int64       // community keeper calls committed so far: hard deposit, hard withdrawal, cdp repayment, cdp withdrawal
 }
 
 type c17Snap struct {
-	raws   []string // stored documents of the three slots
-	others string   // every other key of the bep3 and cdp subspaces
-	props  [][3]int64
-	votes  [][3]int64
-	next   int
-	bals   []int64
-	supply int64
-	plan   int64 // height of the stored upgrade plan, 0 = none (raw x/upgrade store)
+	raws    []string // stored documents of the three slots
+	others  string   // every other key of the bep3 and cdp subspaces
+	props   [][3]int64
+	votes   [][3]int64
+	next    int
+	bals    []int64
+	supply  int64
+	plan    int64    // height of the stored upgrade plan, 0 = none (raw x/upgrade store)
+	ctypes  []int    // Go type of the content of each stored proposal (own type switch), in store order
+	enacted [4]int64 // see c17World.enacted
+	comm    string   // community pool, module account balances, its hard deposit and its CDP
 }
 
 func dec(s string) sdk.Dec { return sdk.MustNewDecFromStr(s) }
@@ -267,6 +340,12 @@ func (w *c17World) goPerm(p c17Perm) ctypes.Permission {
 		return &ctypes.TextPermission{}
 	case "other":
 		return &ctypes.SoftwareUpgradePermission{}
+	case "cdprepay":
+		return &ctypes.CommunityCDPRepayDebtPermission{}
+	case "cdpwithdraw":
+		return &ctypes.CommunityCDPWithdrawCollateralPermission{}
+	case "lendwithdraw":
+		return &ctypes.CommunityPoolLendWithdrawPermission{}
 	}
 	var acs ctypes.AllowedParamsChanges
 	for _, ac := range p.ACs {
@@ -311,23 +390,97 @@ func (w *c17World) goCom(c c17Com) ctypes.Committee {
 	return ctypes.MustNewMemberCommittee(uint64(c.ID), "c", members, perms, dec(c.Threshold), dur, opt)
 }
 
+func rawCoins(cs []c17Coin) sdk.Coins {
+	out := sdk.Coins{}
+	for _, c := range cs {
+		out = append(out, sdk.Coin{Denom: c.D, Amount: sdkmath.NewInt(c.A)})
+	}
+	return out
+}
+
 func (w *c17World) goContent(c c17Content) ctypes.PubProposal {
+	title, desc := "title", "description"
+	switch c.Meta {
+	case 1:
+		title = "  "
+	case 2:
+		desc = ""
+	case 3:
+		title = strings.Repeat("t", govv1beta1.MaxTitleLength+1)
+	}
+	one := func() sdk.Coin {
+		if len(c.Coins) == 0 {
+			return sdk.Coin{Denom: "usdx", Amount: sdkmath.ZeroInt()}
+		}
+		return sdk.Coin{Denom: c.Coins[0].D, Amount: sdkmath.NewInt(c.Coins[0].A)}
+	}
 	switch c.Kind {
 	case "text":
-		return govv1beta1.NewTextProposal("title", "description")
+		return govv1beta1.NewTextProposal(title, desc)
 	case "upgrade":
-		return upgradetypes.NewSoftwareUpgradeProposal("title", "description", upgradetypes.Plan{Name: "v2", Height: c.H})
+		return upgradetypes.NewSoftwareUpgradeProposal(title, desc, upgradetypes.Plan{Name: "v2", Height: c.H})
 	case "cchange":
-		cc := ctypes.MustNewCommitteeChangeProposal("title", "description",
+		cc := ctypes.MustNewCommitteeChangeProposal(title, desc,
 			w.goCom(c17Com{ID: 1, Members: []int{0, 1, 2, 3, 4, 5}, Perms: []c17Perm{{Kind: "god"}}, Threshold: "0.1", Duration: 10, FPTP: true}))
 		return &cc
+	case "cancelupgrade":
+		return upgradetypes.NewCancelSoftwareUpgradeProposal(title, desc)
+	case "poolspend":
+		return &distrtypes.CommunityPoolSpendProposal{Title: title, Description: desc, Recipient: w.addrs[0].String(), Amount: sdk.NewCoins(sdk.NewInt64Coin("ukava", 1000))}
+	case "lenddeposit":
+		return communitytypes.NewCommunityPoolLendDepositProposal(title, desc, rawCoins(c.Coins))
+	case "lendwithdraw":
+		return communitytypes.NewCommunityPoolLendWithdrawProposal(title, desc, rawCoins(c.Coins))
+	case "cdprepay":
+		return communitytypes.NewCommunityCDPRepayDebtProposal(title, desc, c.CType, one())
+	case "cdpwithdraw":
+		return communitytypes.NewCommunityCDPWithdrawCollateralProposal(title, desc, c.CType, one())
 	}
 	var chs []paramsproposal.ParamChange
 	for _, ch := range c.Changes {
 		sub, key := w.prefNames(ch.P)
 		chs = append(chs, paramsproposal.NewParamChange(sub, key, ch.V))
 	}
-	return paramsproposal.NewParameterChangeProposal("title", "description", chs)
+	return paramsproposal.NewParameterChangeProposal(title, desc, chs)
+}
+
+// contentKindOf is the driver's own type switch on a stored content
+func contentKindOf(c govv1beta1.Content) int {
+	switch c.(type) {
+	case *govv1beta1.TextProposal:
+		return 0
+	case *paramsproposal.ParameterChangeProposal:
+		return 1
+	case *upgradetypes.SoftwareUpgradeProposal:
+		return 2
+	case *ctypes.CommitteeChangeProposal:
+		return 3
+	case *communitytypes.CommunityPoolLendDepositProposal:
+		return 4
+	case *communitytypes.CommunityPoolLendWithdrawProposal:
+		return 5
+	case *communitytypes.CommunityCDPRepayDebtProposal:
+		return 6
+	case *communitytypes.CommunityCDPWithdrawCollateralProposal:
+		return 7
+	case *upgradetypes.CancelSoftwareUpgradeProposal:
+		return 8
+	case *distrtypes.CommunityPoolSpendProposal:
+		return 9
+	}
+	return 99
+}
+
+// communityOK runs the x/community handler directly on a copy of the state:
+// what the keeper call behind a community proposal answers there.
+func (w *c17World) communityOK(ctx sdk.Context, c c17Content) (ok bool) {
+	cctx, _ := ctx.CacheContext()
+	defer func() {
+		if r := recover(); r != nil {
+			ok = false
+		}
+	}()
+	return community.NewCommunityPoolProposalHandler(w.tApp.GetCommunityKeeper())(cctx, w.goContent(c)) == nil
 }
 
 func c17NewWorld(setup c17Setup, cnt *Counters) *c17World {
@@ -355,15 +508,74 @@ func c17NewWorld(setup c17Setup, cnt *Counters) *c17World {
 		w.coms[c.ID] = c
 	}
 	gs := ctypes.NewGenesisState(1, coms, ctypes.Proposals{}, []ctypes.Vote{})
+
+	// what the x/community handlers reach: price feed, a money market for ukava and usdx, cdp collateral types
+	far := GenesisTime.Add(1000000 * time.Hour)
+	pf := pricefeedtypes.DefaultGenesisState()
+	for _, m := range [][3]string{{"bnb:usd", "bnb", "15.0"}, {"bnb:usd:30", "bnb", "15.0"}, {"xrp:usd", "xrp", "0.25"}, {"xrp:usd:30", "xrp", "0.25"},
+		{"kava:usd", "ukava", "1.0"}, {"usdx:usd", "usdx", "1.0"}} {
+		pf.Params.Markets = append(pf.Params.Markets, pricefeedtypes.Market{MarketID: m[0], BaseAsset: m[1], QuoteAsset: "usd", Oracles: []sdk.AccAddress{}, Active: true})
+		pf.PostedPrices = append(pf.PostedPrices, pricefeedtypes.PostedPrice{MarketID: m[0], OracleAddress: sdk.AccAddress{}, Price: dec(m[2]), Expiry: far})
+	}
+	hg := hardtypes.DefaultGenesisState()
+	for _, m := range [][2]string{{"ukava", "kava:usd"}, {"usdx", "usdx:usd"}} {
+		hg.Params.MoneyMarkets = append(hg.Params.MoneyMarkets, hardtypes.NewMoneyMarket(m[0],
+			hardtypes.NewBorrowLimit(false, sdk.NewDec(1e15), dec("0.6")), m[1], sdkmath.NewInt(1e6),
+			hardtypes.NewInterestRateModel(dec("0.05"), dec("2"), dec("0.8"), dec("10")), dec("0.05"), sdk.ZeroDec()))
+	}
+	i := sdkmath.NewInt
+	coll := func(denom, typ string, ratio string, fee string, market string) cdptypes.CollateralParam {
+		return cdptypes.CollateralParam{Denom: denom, Type: typ, LiquidationRatio: dec(ratio), DebtLimit: sdk.NewInt64Coin("usdx", 500_000_000_000),
+			StabilityFee: dec(fee), AuctionSize: i(7_000_000_000), LiquidationPenalty: dec("0.05"), SpotMarketID: market, LiquidationMarketID: market + ":30",
+			KeeperRewardPercentage: dec("0.01"), CheckCollateralizationIndexCount: i(10), ConversionFactor: i(8)}
+	}
+	colls := cdptypes.CollateralParams{coll("bnb", "bnb-a", "1.5", "1.000000001547125958", "bnb:usd"), coll("bnb", "bnb-b", "2.0", "1.000000000000000000", "bnb:usd"),
+		coll("xrp", "xrp-a", "2.0", "1.000000001547125958", "xrp:usd")}
+	cg := cdptypes.GenesisState{
+		Params: cdptypes.Params{
+			GlobalDebtLimit: sdk.NewInt64Coin("usdx", 2_000_000_000_000), SurplusAuctionThreshold: cdptypes.DefaultSurplusThreshold,
+			SurplusAuctionLot: cdptypes.DefaultSurplusLot, DebtAuctionThreshold: cdptypes.DefaultDebtThreshold, DebtAuctionLot: cdptypes.DefaultDebtLot,
+			LiquidationBlockInterval: cdptypes.DefaultBeginBlockerExecutionBlockInterval, CollateralParams: colls,
+			DebtParam: cdptypes.DebtParam{Denom: "usdx", ReferenceAsset: "usd", ConversionFactor: i(6), DebtFloor: i(10_000_000)},
+		},
+		StartingCdpID: cdptypes.DefaultCdpStartingID, DebtDenom: cdptypes.DefaultDebtDenom, GovDenom: cdptypes.DefaultGovDenom, CDPs: cdptypes.CDPs{},
+	}
+	for _, c := range colls {
+		cg.PreviousAccumulationTimes = append(cg.PreviousAccumulationTimes, cdptypes.NewGenesisAccumulationTime(c.Type, time.Time{}, sdk.OneDec()))
+		cg.TotalPrincipals = append(cg.TotalPrincipals, cdptypes.NewGenesisTotalPrincipal(c.Type, sdk.ZeroInt()))
+	}
 	tApp.InitializeFromGenesisStatesWithTime(GenesisTime, b.BuildMarshalled(cdc),
-		app.GenesisState{ctypes.ModuleName: cdc.MustMarshalJSON(gs)})
+		app.GenesisState{ctypes.ModuleName: cdc.MustMarshalJSON(gs)},
+		app.GenesisState{pricefeedtypes.ModuleName: cdc.MustMarshalJSON(&pf)},
+		app.GenesisState{hardtypes.ModuleName: cdc.MustMarshalJSON(&hg)},
+		app.GenesisState{cdptypes.ModuleName: cdc.MustMarshalJSON(&cg)})
 	w.height = 2
 	w.ctx = NewCtx(tApp, w.height, GenesisTime)
 	w.k = tApp.GetCommitteeKeeper()
 	w.msg = ckeeper.NewMsgServerImpl(w.k)
+	w.macc = tApp.GetAccountKeeper().GetModuleAddress(communitytypes.ModuleAccountName)
+	must := func(err error) {
+		if err != nil {
+			panic(fmt.Sprintf("c17 world: %v", err))
+		}
+	}
+	tApp.GetPriceFeedKeeper().SetCurrentPricesForAllMarkets(w.ctx)
+	if setup.PoolFunded {
+		funds := sdk.NewCoins(sdk.NewInt64Coin("ukava", 5_000_000_000), sdk.NewInt64Coin("usdx", 5_000_000_000))
+		must(tApp.FundAccount(w.ctx, deputy, funds))
+		must(tApp.GetDistrKeeper().FundCommunityPool(w.ctx, funds, deputy))
+	}
+	if setup.HardDeposit {
+		dep := sdk.NewCoins(sdk.NewInt64Coin("ukava", 2_000_000_000), sdk.NewInt64Coin("usdx", 1_000_000_000))
+		must(tApp.FundModuleAccount(w.ctx, communitytypes.ModuleAccountName, dep))
+		must(tApp.GetHardKeeper().Deposit(w.ctx, w.macc, dep))
+	}
+	if setup.Cdp {
+		must(tApp.FundModuleAccount(w.ctx, communitytypes.ModuleAccountName, sdk.NewCoins(sdk.NewInt64Coin("xrp", 200_000_000_000))))
+		must(tApp.GetCDPKeeper().AddCdp(w.ctx, w.macc, sdk.NewInt64Coin("xrp", 200_000_000_000), sdk.NewInt64Coin("usdx", 60_000_000), "xrp-a"))
+	}
 
 	// parameter values, written through the real subspaces
-	i := sdkmath.NewInt
 	asset := func(denom string, coin int64, active bool, minb, maxb uint64) bep3types.AssetParam {
 		return bep3types.AssetParam{Denom: denom, CoinID: coin,
 			SupplyLimit: bep3types.SupplyLimit{Limit: i(350_000_000_000_000), TimeLimited: false, TimePeriod: time.Hour, TimeBasedLimit: i(0)},
@@ -380,13 +592,6 @@ func c17NewWorld(setup c17Setup, cnt *Counters) *c17World {
 	if setup.EmptyAssets {
 		assets = bep3types.AssetParams{}
 	}
-	coll := func(denom, typ string, ratio string, fee string, market string) cdptypes.CollateralParam {
-		return cdptypes.CollateralParam{Denom: denom, Type: typ, LiquidationRatio: dec(ratio), DebtLimit: sdk.NewInt64Coin("usdx", 500_000_000_000),
-			StabilityFee: dec(fee), AuctionSize: i(7_000_000_000), LiquidationPenalty: dec("0.05"), SpotMarketID: market, LiquidationMarketID: market + ":30",
-			KeeperRewardPercentage: dec("0.01"), CheckCollateralizationIndexCount: i(10), ConversionFactor: i(8)}
-	}
-	colls := cdptypes.CollateralParams{coll("bnb", "bnb-a", "1.5", "1.000000001547125958", "bnb:usd"), coll("bnb", "bnb-b", "2.0", "1.000000000000000000", "bnb:usd"),
-		coll("xrp", "xrp-a", "2.0", "1.000000001547125958", "xrp:usd")}
 	debt := cdptypes.DebtParam{Denom: "usdx", ReferenceAsset: "", ConversionFactor: i(6), DebtFloor: i(10_000_000)}
 	if setup.RefAssetSet {
 		debt.ReferenceAsset = "usd"
@@ -452,6 +657,7 @@ func (w *c17World) snap() *c17Snap {
 		var p ctypes.Proposal
 		cdc.MustUnmarshal(it.Value(), &p)
 		s.props = append(s.props, [3]int64{int64(p.ID), int64(p.CommitteeID), p.Deadline.Unix() - GenesisTime.Unix()})
+		s.ctypes = append(s.ctypes, contentKindOf(p.GetContent()))
 	}
 	it.Close()
 	it = sdk.KVStorePrefixIterator(store, ctypes.VoteKeyPrefix)
@@ -480,7 +686,44 @@ func (w *c17World) snap() *c17Snap {
 		cdc.MustUnmarshal(bz, &pl)
 		s.plan = pl.Height
 	}
+	s.enacted = w.enacted
+	s.comm = w.communityDigest(w.ctx)
 	return s
+}
+
+// communityDigest: everything the four x/community handlers move
+func (w *c17World) communityDigest(ctx sdk.Context) string {
+	var b strings.Builder
+	fp := w.tApp.GetDistrKeeper().GetFeePool(ctx)
+	fmt.Fprintf(&b, "pool=%s;macc=%s;", fp.CommunityPool.String(), w.tApp.GetBankKeeper().GetAllBalances(ctx, w.macc).String())
+	if d, ok := w.tApp.GetHardKeeper().GetDeposit(ctx, w.macc); ok {
+		fmt.Fprintf(&b, "deposit=%s;", d.Amount.String())
+	}
+	// straight from the store: look-ups by collateral type go through the (changeable) collateral parameters
+	w.tApp.GetCDPKeeper().IterateAllCdps(ctx, func(c cdptypes.CDP) bool {
+		if c.Owner.Equals(w.macc) {
+			fmt.Fprintf(&b, "cdp[%s]=%s/%s/%s;", c.Type, c.Collateral.String(), c.Principal.String(), c.AccumulatedFees.String())
+		}
+		return false
+	})
+	return b.String()
+}
+
+// communityCalls counts the keeper events behind the four community handlers
+func communityCalls(evs sdk.Events) (n [4]int64) {
+	for _, e := range evs {
+		switch e.Type {
+		case hardtypes.EventTypeHardDeposit:
+			n[0]++
+		case hardtypes.EventTypeHardWithdrawal:
+			n[1]++
+		case cdptypes.EventTypeCdpRepay:
+			n[2]++
+		case cdptypes.EventTypeCdpWithdrawal:
+			n[3]++
+		}
+	}
+	return
 }
 
 // closeEvents extracts (proposal id, outcome) from proposal_close events, in order.
@@ -516,13 +759,68 @@ type c17Out struct {
 	b      bool
 	id     int
 	closed [][2]int
+	oracle [][2]int // begin: (proposal id, 1 if the community keeper call succeeds at its turn) for the stored community proposals
 }
 
 func (w *c17World) handlerFor(c c17Content) govv1beta1.Handler {
 	if c.Kind == "param" {
 		return params.NewParamChangeProposalHandler(w.tApp.GetParamsKeeper())
 	}
+	if c.isCommunity() {
+		return community.NewCommunityPoolProposalHandler(w.tApp.GetCommunityKeeper())
+	}
 	return govv1beta1.ProposalHandler
+}
+
+// beginOracle computes, before a begin block is run, what the keeper call behind every
+// stored community proposal answers at the moment the begin blocker reaches it: a first
+// throw-away run of the begin blocker tells which proposals pass; a second copy of the
+// state is then advanced proposal by proposal with the handlers of the passed ones.
+func (w *c17World) beginOracle(ctx sdk.Context) (out [][2]int) {
+	any := false
+	for _, p := range w.pend {
+		if p.content.isCommunity() {
+			any = true
+		}
+	}
+	if !any {
+		return nil
+	}
+	passed := map[int]bool{}
+	func() {
+		defer func() { _ = recover() }()
+		c1, _ := ctx.CacheContext()
+		em := sdk.NewEventManager()
+		committee.BeginBlocker(c1.WithEventManager(em), abci.RequestBeginBlock{}, w.k)
+		for _, ev := range closeEvents(em.Events()) {
+			if ev[1] == 0 {
+				passed[ev[0]] = true
+			}
+		}
+	}()
+	sim, _ := ctx.CacheContext()
+	w.k.IterateProposals(sim, func(p ctypes.Proposal) bool {
+		pi := w.pend[int(p.ID)]
+		if pi == nil {
+			return false
+		}
+		if pi.content.isCommunity() {
+			ok := w.communityOK(sim, pi.content)
+			b := 0
+			if ok {
+				b = 1
+			}
+			out = append(out, [2]int{int(p.ID), b})
+		}
+		if passed[int(p.ID)] && pi.content.Kind != "upgrade" {
+			func() {
+				defer func() { _ = recover() }()
+				_ = w.handlerFor(pi.content)(sim, w.goContent(pi.content))
+			}()
+		}
+		return false
+	})
+	return out
 }
 
 func (w *c17World) exec(op c17Op) (cls Class, err error, out c17Out) {
@@ -534,20 +832,44 @@ func (w *c17World) exec(op c17Op) (cls Class, err error, out c17Out) {
 			return nil
 		})
 	case "apply":
-		if op.Content.Kind == "upgrade" {
-			return ClassErr, fmt.Errorf("the upgrade handler is not driven directly"), out
+		if op.Content.Kind == "upgrade" || op.Content.Kind == "cancelupgrade" || op.Content.Kind == "poolspend" {
+			return ClassErr, fmt.Errorf("the upgrade and distribution handlers are not driven directly"), out
 		}
+		if op.Content.isCommunity() {
+			op.Content.ok = w.communityOK(w.ctx, *op.Content)
+		}
+		var calls [4]int64
 		cls, err = Atomically(w.ctx, func(ctx sdk.Context) error {
 			content := w.goContent(*op.Content)
 			if e := w.k.ValidatePubProposal(ctx, content); e != nil {
 				return e
 			}
-			return w.handlerFor(*op.Content)(ctx, content)
+			em := sdk.NewEventManager()
+			e := w.handlerFor(*op.Content)(ctx.WithEventManager(em), content)
+			calls = communityCalls(em.Events())
+			return e
 		})
+		if cls == ClassOk {
+			for i := range calls {
+				w.enacted[i] += calls[i]
+			}
+		}
 	case "submit":
+		if op.Content.isCommunity() {
+			op.Content.ok = w.communityOK(w.ctx, *op.Content)
+		}
 		cls, err = Atomically(w.ctx, func(ctx sdk.Context) error {
-			m, e := ctypes.NewMsgSubmitProposal(w.goContent(*op.Content), w.addrs[op.A], uint64(op.Com))
+			m0, e := ctypes.NewMsgSubmitProposal(w.goContent(*op.Content), w.addrs[op.A], uint64(op.Com))
 			if e != nil {
+				return e
+			}
+			// through the codec, as a transaction is: the proposal's Any is unpacked against PubProposal
+			bz, e := w.tApp.AppCodec().Marshal(m0)
+			if e != nil {
+				return e
+			}
+			m := &ctypes.MsgSubmitProposal{}
+			if e := w.tApp.AppCodec().Unmarshal(bz, m); e != nil {
 				return e
 			}
 			if e := m.ValidateBasic(); e != nil {
@@ -576,12 +898,20 @@ func (w *c17World) exec(op c17Op) (cls Class, err error, out c17Out) {
 		w.now = op.T
 		w.height++
 		w.ctx = w.ctx.WithBlockHeight(w.height).WithBlockTime(GenesisTime.Add(time.Duration(op.T) * time.Second))
+		out.oracle = w.beginOracle(w.ctx)
+		var calls [4]int64
 		cls, err = Atomically(w.ctx, func(ctx sdk.Context) error {
 			em := sdk.NewEventManager()
 			committee.BeginBlocker(ctx.WithEventManager(em), abci.RequestBeginBlock{}, w.k)
 			out.kind, out.closed = "closed", closeEvents(em.Events())
+			calls = communityCalls(em.Events())
 			return nil
 		})
+		if cls == ClassOk {
+			for i := range calls {
+				w.enacted[i] += calls[i]
+			}
+		}
 	case "transfer":
 		cls, err = Atomically(w.ctx, func(ctx sdk.Context) error {
 			if op.X <= 0 {
@@ -817,8 +1147,18 @@ func (w *c17World) monitor(op c17Op, cls Class, out c17Out, before, after *c17Sn
 	}
 	switch op.Kind {
 	case "allows":
-		if !paramsSame() {
+		if !paramsSame() || before.comm != after.comm {
 			return "query-changes-nothing", "allows-changed-params", ""
+		}
+		if cls == ClassOk {
+			// the permission matrix, from the declared types alone
+			want := typeAllows(op.Perm.Kind, op.Content.Kind)
+			if op.Perm.Kind != "params" && out.b != want {
+				return "permission-matrix", "allows-matrix:" + op.Perm.Kind + ":" + op.Content.Kind, fmt.Sprintf("Allows = %v, the permission type allows that proposal type: %v", out.b, want)
+			}
+			if op.Perm.Kind == "params" && out.b && !want {
+				return "permission-matrix", "allows-matrix:" + op.Perm.Kind + ":" + op.Content.Kind, "a ParamsChangePermission allowed a proposal that is not a parameter change"
+			}
 		}
 		if cls == ClassOk && out.b && op.Perm.Kind == "params" && op.Content.Kind == "param" {
 			// what would enacting it do?
@@ -840,6 +1180,20 @@ func (w *c17World) monitor(op c17Op, cls Class, out c17Out, before, after *c17Sn
 		if !paramsSame() || before.plan != after.plan {
 			return "submit-vote-apply-no-effects", "submit-or-vote-changed-params", op.Kind
 		}
+		if before.comm != after.comm || before.enacted != after.enacted {
+			return "submit-vote-apply-no-effects", "submit-or-vote-moved-community-funds", op.Kind + ": " + before.comm + " -> " + after.comm
+		}
+		if op.Kind == "submit" {
+			if c, ok := w.coms[op.Com]; ok && !anyTypeAllows(c.Perms, op.Content.Kind) {
+				// no permission of the committee can allow a proposal of this type: refused, nothing changes
+				if cls == ClassOk {
+					return "submission-needs-a-permission", "submitted-without-permission:" + op.Content.Kind, fmt.Sprintf("committee %d", op.Com)
+				}
+				if len(before.props) != len(after.props) || before.next != after.next || len(before.votes) != len(after.votes) {
+					return "submission-needs-a-permission", "refused-submission-changed-the-store", op.Content.Kind
+				}
+			}
+		}
 		for i := range before.bals {
 			if before.bals[i] != after.bals[i] {
 				return "submit-vote-apply-no-effects", "submit-or-vote-changed-balances", op.Kind
@@ -853,7 +1207,7 @@ func (w *c17World) monitor(op c17Op, cls Class, out c17Out, before, after *c17Sn
 				if op.Content.H <= 0 || op.Content.H < w.height {
 					return "failing-handler-rejected-at-submission", "stored-proposal-with-failing-handler", fmt.Sprintf("upgrade plan height %d at height %d", op.Content.H, w.height)
 				}
-			} else {
+			} else if op.Content.Kind != "cancelupgrade" {
 				cctx, _ := w.ctx.CacheContext()
 				if e := w.handlerFor(*op.Content)(cctx, w.goContent(*op.Content)); e != nil {
 					return "failing-handler-rejected-at-submission", "stored-proposal-with-failing-handler", e.Error()
@@ -886,6 +1240,36 @@ func (w *c17World) monitor(op c17Op, cls Class, out c17Out, before, after *c17Sn
 			if w.now >= p.deadline {
 				return "votes-only-before-deadline", "vote-accepted-after-deadline", fmt.Sprintf("t=%d deadline=%d", w.now, p.deadline)
 			}
+			// a repeated vote replaces the earlier one: one stored vote per (proposal, voter), of the type just cast; all other votes as before
+			n := 0
+			for _, v := range after.votes {
+				if int(v[0]) == op.Pid && int(v[1]) == op.A {
+					n++
+					if int(v[2]) != op.Vt {
+						return "vote-replaces-earlier-vote", "stored-vote-has-another-type", fmt.Sprint(v)
+					}
+				}
+			}
+			others := func(vs [][3]int64) (out [][3]int64) {
+				for _, v := range vs {
+					if !(int(v[0]) == op.Pid && int(v[1]) == op.A) {
+						out = append(out, v)
+					}
+				}
+				return
+			}
+			if n != 1 || fmt.Sprint(others(before.votes)) != fmt.Sprint(others(after.votes)) {
+				return "vote-replaces-earlier-vote", "vote-counted-twice-or-other-votes-touched", fmt.Sprintf("%d votes stored for proposal %d voter %d", n, op.Pid, op.A)
+			}
+			if c, ok := w.coms[p.com]; ok && !c.Token {
+				member := false
+				for _, m := range c.Members {
+					member = member || m == op.A
+				}
+				if !member || op.Vt != 1 {
+					return "member-committees-accept-member-yes-votes-only", "member-committee-accepted-foreign-or-non-yes-vote", fmt.Sprintf("voter %d type %d", op.A, op.Vt)
+				}
+			}
 		}
 	case "begin":
 		if cls == ClassPanic {
@@ -904,6 +1288,7 @@ func (w *c17World) monitor(op c17Op, cls Class, out c17Out, before, after *c17Sn
 		closedNow := map[int]int{}
 		passed := 0
 		var passedPid int
+		var wantCalls [4]int64
 		for _, ev := range out.closed {
 			pid, oc := ev[0], ev[1]
 			p := w.pend[pid]
@@ -929,6 +1314,13 @@ func (w *c17World) monitor(op c17Op, cls Class, out c17Out, before, after *c17Sn
 				if oc == 0 {
 					passed++
 					passedPid = pid
+					// enacted only what a permission of the committee allows, judged by declared types
+					if !anyTypeAllows(c.Perms, p.content.Kind) {
+						return "enacted-only-with-permission", "enacted-without-permission:" + p.content.Kind, fmt.Sprintf("proposal %d of committee %d", pid, p.com)
+					}
+					if k := contentTag(p.content.Kind) - 4; k >= 0 && k < 4 {
+						wantCalls[k]++
+					}
 				}
 			case 1:
 				if found && !(w.now >= p.deadline && !w.exactTally(c, pid, before)) {
@@ -965,6 +1357,17 @@ func (w *c17World) monitor(op c17Op, cls Class, out c17Out, before, after *c17Sn
 		if passed == 0 && (!paramsSame() || before.plan != after.plan) {
 			return "only-passed-proposals-change-params", "params-changed-without-passed-proposal", ""
 		}
+		// which community handler ran: exactly one keeper call of its own kind per passed community proposal
+		var gotCalls [4]int64
+		for i := range gotCalls {
+			gotCalls[i] = after.enacted[i] - before.enacted[i]
+		}
+		if gotCalls != wantCalls {
+			return "enacted-proposal-runs-its-own-handler", "community-handler-kind-mismatch", fmt.Sprintf("passed community proposals by kind %v, keeper calls by kind %v", wantCalls, gotCalls)
+		}
+		if wantCalls == [4]int64{} && before.comm != after.comm {
+			return "only-passed-proposals-move-community-funds", "community-funds-moved-without-passed-proposal", before.comm + " -> " + after.comm
+		}
 		for _, ev := range out.closed {
 			if p := w.pend[ev[0]]; p != nil && p.content.Kind == "upgrade" {
 				if ev[1] == 0 && p.content.H < w.height {
@@ -973,6 +1376,9 @@ func (w *c17World) monitor(op c17Op, cls Class, out c17Out, before, after *c17Sn
 				if ev[1] == 0 && after.plan != p.content.H && passed == 1 {
 					return "passed-upgrade-is-scheduled", "passed-upgrade-not-scheduled", fmt.Sprint(ev[0])
 				}
+			}
+			if p := w.pend[ev[0]]; p != nil && p.content.Kind == "cancelupgrade" && ev[1] == 0 && passed == 1 && after.plan != 0 {
+				return "passed-cancellation-clears-the-plan", "passed-cancellation-left-the-plan", fmt.Sprint(ev[0])
 			}
 		}
 		if passed == 1 {
@@ -1001,7 +1407,7 @@ func (w *c17World) monitor(op c17Op, cls Class, out c17Out, before, after *c17Sn
 				delete(w.coms, op.Com)
 			}
 		}
-		if !paramsSame() {
+		if !paramsSame() || before.comm != after.comm {
 			return "committee-change-keeps-params", "committee-change-changed-params", ""
 		}
 	}
@@ -1044,7 +1450,13 @@ func (w *c17World) coqPerm(p c17Perm) string {
 	case "text":
 		return "PermText"
 	case "other":
-		return "PermOther"
+		return "PermUpgrade"
+	case "cdprepay":
+		return "PermCdpRepay"
+	case "cdpwithdraw":
+		return "PermCdpWithdraw"
+	case "lendwithdraw":
+		return "PermLendWithdraw"
 	}
 	var acs []string
 	for _, ac := range p.ACs {
@@ -1057,7 +1469,30 @@ func (w *c17World) coqPerm(p c17Perm) string {
 	return "(PermParams " + List(acs) + ")"
 }
 
+func coqCoin(c c17Coin) string { return fmt.Sprintf("(%s, %s)", coqString(c.D), Zi(c.A)) }
+
 func (w *c17World) coqContent(c c17Content) string {
+	body := w.coqBody(c)
+	if c.Meta != 0 {
+		return "(CBadMeta " + body + ")"
+	}
+	return body
+}
+
+func (w *c17World) coqBody(c c17Content) string {
+	one := func() string {
+		if len(c.Coins) == 0 {
+			return coqCoin(c17Coin{"usdx", 0})
+		}
+		return coqCoin(c.Coins[0])
+	}
+	coins := func() string {
+		it := make([]string, len(c.Coins))
+		for i, x := range c.Coins {
+			it[i] = coqCoin(x)
+		}
+		return List(it)
+	}
 	switch c.Kind {
 	case "text":
 		return "CText"
@@ -1065,6 +1500,18 @@ func (w *c17World) coqContent(c c17Content) string {
 		return "CCommitteeChange"
 	case "upgrade":
 		return "(CUpgrade " + Zi(c.H) + ")"
+	case "cancelupgrade":
+		return "CCancelUpgrade"
+	case "poolspend":
+		return "CPoolSpend"
+	case "lenddeposit":
+		return fmt.Sprintf("(CLendDeposit %s %s)", coins(), Bool(c.ok))
+	case "lendwithdraw":
+		return fmt.Sprintf("(CLendWithdraw %s %s)", coins(), Bool(c.ok))
+	case "cdprepay":
+		return fmt.Sprintf("(CCdpRepay %s %s %s)", coqString(c.CType), one(), Bool(c.ok))
+	case "cdpwithdraw":
+		return fmt.Sprintf("(CCdpWithdraw %s %s %s)", coqString(c.CType), one(), Bool(c.ok))
 	}
 	var chs []string
 	for _, ch := range c.Changes {
@@ -1165,7 +1612,26 @@ func (w *c17World) coqObs(cls Class, out c17Out, before, after *c17Snap) string 
 	for i, b := range after.bals {
 		bl[i] = Zi(b)
 	}
-	return fmt.Sprintf("mkObs %s %s %s %s %s %s %s %s", cls.Coq(), o, List(dp), triples(after.props), triples(after.votes), Nat(after.next), List(bl), Zi(after.plan))
+	ct := make([]string, len(after.ctypes))
+	for i, t := range after.ctypes {
+		ct[i] = Nat(t)
+	}
+	return fmt.Sprintf("mkObs %s %s %s %s %s %s %s %s %s %s", cls.Coq(), o, List(dp), triples(after.props), triples(after.votes), Nat(after.next), List(bl), Zi(after.plan),
+		List(ct), coqEnacted(after.enacted))
+}
+
+func coqEnacted(n [4]int64) string {
+	return List([]string{Zi(n[0]), Zi(n[1]), Zi(n[2]), Zi(n[3])})
+}
+
+// coqOracle renders the ghost step that precedes a begin block: the recorded keeper
+// verdicts for the stored community proposals; nothing observable changes.
+func (w *c17World) coqOracle(orc [][2]int, s *c17Snap) string {
+	it := make([]string, len(orc))
+	for i, e := range orc {
+		it[i] = fmt.Sprintf("(%s, %s)", Nat(e[0]), Bool(e[1] == 1))
+	}
+	return fmt.Sprintf("(OOracle %s,\n    %s)", List(it), w.coqObs(ClassOk, c17Out{kind: "none"}, s, s))
 }
 
 func (w *c17World) coqInit(setup c17Setup, s *c17Snap) string {
@@ -1183,7 +1649,7 @@ func (w *c17World) coqInit(setup c17Setup, s *c17Snap) string {
 	for i, b := range s.bals {
 		bl[i] = Zi(b)
 	}
-	return fmt.Sprintf("(mkState %s\n   %s\n   [] [] %s %s %s 0 %s %s)", List(ps), List(cs), Nat(s.next), List(bl), Zi(s.supply), Zi(w.height), Zi(s.plan))
+	return fmt.Sprintf("(mkState %s\n   %s\n   [] [] %s %s %s 0 %s %s %s)", List(ps), List(cs), Nat(s.next), List(bl), Zi(s.supply), Zi(w.height), Zi(s.plan), coqEnacted(s.enacted))
 }
 
 // ------------------------------------------------------------ history runner
@@ -1223,7 +1689,7 @@ func c17ErrKind(err error) string {
 func c17Run(seed uint64, idx, n int, setup c17Setup, ops []c17Op, cnt *Counters) (exec []c17Op, coq string, fail *Failure, nontrivial bool) {
 	w := c17NewWorld(setup, cnt)
 	r := NewRng(seed, uint64(idx)*2)
-	g := &c17Gen{r: r, w: w, cnt: cnt}
+	g := &c17Gen{r: r, w: w, cnt: cnt, idx: idx}
 	prev := w.snap()
 	header := coqSlots(w.slots) + "\n  " + w.coqInit(setup, prev)
 	var steps []string
@@ -1250,6 +1716,9 @@ func c17Run(seed uint64, idx, n int, setup c17Setup, ops []c17Op, cnt *Counters)
 		if cls == ClassOk && ((op.Kind == "allows" && out.b && op.Content.Kind == "param") || (op.Kind == "begin" && len(out.closed) > 0)) {
 			nontrivial = true
 		}
+		if len(out.oracle) > 0 {
+			steps = append(steps, w.coqOracle(out.oracle, prev))
+		}
 		steps = append(steps, fmt.Sprintf("(%s,\n    %s)", w.coqOp(op), w.coqObs(cls, out, prev, after)))
 		if pred, sig, detail := w.monitor(op, cls, out, prev, after); pred != "" && fail == nil {
 			fail = &Failure{History: idx, Step: i, Predicate: pred, Signature: sig, Detail: detail}
@@ -1266,6 +1735,9 @@ func c17Splits(w *c17World, op c17Op, cls Class, out c17Out, before, after *c17S
 		if cls == ClassPanic {
 			cnt.Inc("split:allows:panic")
 			return
+		}
+		if cls == ClassOk {
+			cnt.Inc(fmt.Sprintf("split:matrix:%s:%s:%v", op.Perm.Kind, op.Content.Kind, out.b))
 		}
 		if op.Perm.Kind == "params" && op.Content.Kind == "param" {
 			for _, ch := range op.Content.Changes {
@@ -1292,6 +1764,21 @@ func c17Splits(w *c17World, op c17Op, cls Class, out c17Out, before, after *c17S
 				}
 			}
 			cnt.Inc(fmt.Sprintf("split:close:%s:%s", strings.ToLower(outcomeCoq[ev[1]]), when))
+			if p != nil {
+				cnt.Inc(fmt.Sprintf("split:closed:%s:%s", strings.ToLower(outcomeCoq[ev[1]]), p.content.Kind))
+				if ev[1] == 2 && p.content.Kind == "param" {
+					// was it the permission re-check (and not the dry run) that refused it?
+					if c, ok := w.coms[p.com]; ok {
+						func() {
+							defer func() { _ = recover() }()
+							cctx, _ := w.ctx.CacheContext()
+							if !w.goCom(c).HasPermissionsFor(cctx, w.tApp.AppCodec(), w.tApp.GetParamsKeeper(), w.goContent(p.content)) {
+								cnt.Inc("split:closed:invalid:permission-gone")
+							}
+						}()
+					}
+				}
+			}
 			if p != nil && p.content.Kind == "upgrade" {
 				stale := "in-time"
 				if p.content.H < w.height {
@@ -1310,6 +1797,14 @@ func c17Splits(w *c17World, op c17Op, cls Class, out c17Out, before, after *c17S
 	case "submit":
 		if cls == ClassOk {
 			cnt.Inc("split:submit:stored:" + op.Content.Kind)
+		} else if c, ok := w.coms[op.Com]; ok && (op.Content.Kind == "lenddeposit" || op.Content.Kind == "cchange") && anyTypeAllows(c.Perms, op.Content.Kind) {
+			cnt.Inc("split:submit:refused-undecodable:" + op.Content.Kind)
+		} else if ok && !anyTypeAllows(c.Perms, op.Content.Kind) {
+			cnt.Inc("split:submit:refused-no-permission:" + op.Content.Kind)
+		} else if ok && op.Content.Meta != 0 {
+			cnt.Inc("split:submit:refused-bad-meta")
+		} else if ok && op.Content.isCommunity() && !op.Content.ok {
+			cnt.Inc("split:submit:refused-handler-fails:" + op.Content.Kind)
 		}
 	}
 }
@@ -1322,6 +1817,15 @@ var c17AllSplits = []string{
 	"doc:dup-key", "doc:case-variant", "doc:reordered-keys", "doc:reordered-records", "doc:added-absent-omitempty", "doc:dropped-allowed-key",
 	"doc:drop-and-add", "doc:dup-record", "doc:null-value", "doc:wrong-type", "doc:protected-changed", "doc:nested-changed", "doc:not-json",
 	"tally:token", "tally:member",
+	"submit:refused-undecodable:lenddeposit", "submit:stored:lendwithdraw", "submit:stored:cdprepay", "submit:stored:cdpwithdraw",
+	"submit:refused-no-permission:lenddeposit", "submit:refused-no-permission:lendwithdraw", "submit:refused-no-permission:cdprepay", "submit:refused-no-permission:cdpwithdraw",
+	"submit:refused-no-permission:text", "submit:refused-no-permission:upgrade", "submit:refused-no-permission:param",
+	"closed:passed:lendwithdraw", "closed:passed:cdprepay", "closed:passed:cdpwithdraw", "closed:passed:text", "closed:passed:param", "closed:passed:upgrade",
+	"closed:invalid:lendwithdraw", "closed:invalid:cdprepay", "closed:invalid:cdpwithdraw",
+	"matrix:cdprepay:cdprepay:true", "matrix:cdpwithdraw:cdpwithdraw:true", "matrix:lendwithdraw:lendwithdraw:true",
+	"matrix:cdprepay:cdpwithdraw:false", "matrix:cdpwithdraw:cdprepay:false", "matrix:lendwithdraw:lenddeposit:false", "matrix:lendwithdraw:cdprepay:false",
+	"matrix:god:lenddeposit:true", "matrix:text:text:true", "matrix:other:upgrade:true", "matrix:text:upgrade:false", "matrix:other:text:false",
+	"submit:refused-bad-meta", "closed:invalid:permission-gone",
 }
 
 func runC17(o Opts) (*Result, error) {
